@@ -52,10 +52,12 @@ Definition drawupdate (f : nat -> R) (h otop xtop : nat) (rows : list R) : list 
 
 Definition clampZ (x lo hi : Z) : Z := Z.min (Z.max x lo) hi.
 
-(* vi_drawfix(r1, r2, n, 0): lines r1..r2 were replaced by n lines *)
+(* vi_drawfix(r1, r2, n, 0): lines r1..r2 were replaced by n lines.  Since fix 7ace771 the new lines above the window take no
+   screen rows: n is reduced by xtop - r1 when the range starts above the window (dis keeps the full count) *)
 Definition drawfix (f : nat -> R) (xtop h : nat) (r1 r2 n : Z) (rows : list R) : list R :=
   let top := Z.of_nat xtop in let hz := Z.of_nat h in
   let dis := (n - (r2 - r1 + 1))%Z in
+  let n := if (r1 <? top)%Z then Z.max 0 (n - (top - r1)) else n in
   let r1c := clampZ r1 top (top + hz - 1) in
   let r2c := clampZ r2 top (top + hz - 1) in
   let rows := term_room h (r1c - r2c - 1 + n) (Z.to_nat (r1c - top)) rows in
